@@ -133,7 +133,8 @@ def identity_with_values(tree):
 def rule(program, rep, rule_id, modules):
     n = 0
     for mname in modules:
-        m = program.modules.get(mname)
+        m = program.full(mname) if hasattr(program, "full") else \
+            program.modules.get(mname)
         if m is None:
             continue
         program.module(mname)
